@@ -1,0 +1,15 @@
+//go:build verif
+
+package app
+
+import gotime "time"
+
+// VerifNow, if set, replaces the wall clock of the application context.
+var VerifNow func() gotime.Time
+
+func verifNow() (gotime.Time, bool) {
+	if f := VerifNow; f != nil {
+		return f(), true
+	}
+	return gotime.Time{}, false
+}
